@@ -102,7 +102,17 @@ def srvObs (ws : List String) : String :=
   -- `timeout=default`: the builder's `shutdown_timeout` is never called; the property speaks of the documented 30 s
   -- (that the source still says so: `C06.default_shutdown_timeout_is_30s`)
   let isDefault := kv ws "timeout" == some "default"
-  let timeout := if isDefault then 30 else ((kv ws "timeout").bind (·.toNat?)).getD 1
+  -- seconds, anything a u64 holds (`max` = u64::MAX, "never force"); in the model the time-out is a natural number: nothing overflows
+  let tmo : Option Nat := match kv ws "timeout" with
+    | none => some 1
+    | some "default" => some 30
+    | some "max" => some 18446744073709551615
+    | some t => if !t.isEmpty && t.length ≤ 20 && t.all Char.isDigit then
+        t.toNat?.bind fun n => if n ≤ 18446744073709551615 then some n else none else none
+  let lstOk := match kv ws "lst" with | none => true | some l => l == "tcp" || l == "uds" || l == "udsl"
+  match tmo, lstOk with
+  | none, _ | _, false => "bad-op"
+  | some timeout, true =>
   let mode : Option Bool := match kv ws "mode" with | some "g" => some true | some "f" => some false | _ => none
   -- further stop() calls (each `gap2` ms after the previous one): in the channel behind the first `Stop`
   let second : Option (List Bool) := match kv ws "second" with
@@ -111,7 +121,7 @@ def srvObs (ws : List String) : String :=
   let gap2 : Option Nat := match kv ws "gap2" with | none => some 0 | some g => g.toNat?
   match mode, (kv ws "holds").bind parseHolds, second, gap2 with
   | some g, some holds, some second, some gap2 =>
-    if workers == 0 || workers > 64 || holds.length > 64 || (!isDefault && timeout > 10) || second.length > 4 || gap2 > 5000 then "bad-op" else
+    if workers == 0 || workers > 64 || holds.length > 64 || second.length > 4 || gap2 > 5000 || (!isDefault && timeout > 10 && holds.any (·.isNone)) then "bad-op" else
     let dropFut := kv ws "drop" == some "1"
     let paused := kv ws "paused" == some "1"
     let calls : List ServerCmd.Call := (if paused then [.pause] else []) ++ [.stop g] ++ second.map .stop
@@ -204,12 +214,23 @@ def faultObs (ws : List String) : String :=
   let hold : Option Bool := match kv ws "hold" with | none => some false | some "1" => some true | _ => none
   -- `sat=1`: a saturated live worker, a dead worker marked available: the next connection is handed to the live one (C01)
   let sat : Option Bool := match kv ws "sat" with | none => some false | some "1" => some true | _ => none
+  -- `signals=1`: signals enabled — the command loop is the same; `pausedrep=1`: the replacement arrives while the accept loop is
+  -- paused and is in the rotation after resume
+  let sigs : Option Bool := match kv ws "signals" with | none => some false | some "1" => some true | _ => none
+  let prep : Option Bool := match kv ws "pausedrep" with | none => some false | some "1" => some true | _ => none
+  match sigs, prep with
+  | none, _ | _, none => "bad-op"
+  | some _, some pp =>
   match kill, busy, hold, sat with
   | none, _, _, _ | _, none, _, _ | _, _, none, _ | _, _, _, none => "bad-op"
   | some kl, some bs, some hd, some sa =>
   match gapOk, withStop, faults, limit, workers, pair, dropsrv with
   | true, some st, some fl, some lim, some wk, some pr, some ds =>
     let exact := lim.isNone && wk == 2
+    if pp && (wk != 2 || lim != some 1 || kl != 0 || fl != 1 || st || pr || ds || bs || hd || sa) then "bad-op" else
+    if pp then
+      let run := ServerCmd.serve ServerCmd.srcWakeFirst 2 [.faulted 0, .pause, .resume]
+      s!"killed=- replaced={bit (run.log.contains (.restartWorker 0))} paused={bit (run.log.contains (.ack 0))} resumed={bit (run.log.contains (.ack 1))} pair=2/2" else
     if sa && (wk != 2 || lim != some 1 || kl != 0 || fl != 1 || st || pr || ds || bs || hd) then "bad-op" else
     if sa then "held=1 killed=- next-served=1" else
     if (st && (!exact || pr)) || (ds && (!exact || st || pr || fl != 1 || kl != 0))
